@@ -17,6 +17,9 @@ def run(chk):
     # cross-device and fan-out cases, and every function on both backends against the same finite differences
     from props.C01 import grad_oracle
     grad_oracle(chk, 2 if chk.tier == "quick" else 20)
+    for lib in libs:
+        if hasattr(lib, "run_special_values"):
+            lib.run_special_values(chk)   # +-inf, NaN, subnormals, +-0, the largest floats through every elementwise kernel of both backends
     from props import C17 as _c17
     _c17.run_backend_parity(chk, 6 if chk.tier == "quick" else 80, 25)     # same seed, same random history, same answers
     from props import _state
